@@ -1,5 +1,5 @@
 #!/bin/bash
-# usage: dscrun.sh [seed] [tier]  -- runs TestDiscovery directly and prints a summary
+# usage: selftest/dscrun.sh [seed] [tier]  -- runs TestDiscovery directly and prints a summary
 export GOFLAGS=-mod=mod GOPROXY=off GOSUMDB=off GOTOOLCHAIN=local
 cd /root/scratch/w-disc/go
 MODF=${MODFILE:-go.mod}
